@@ -66,6 +66,14 @@ var handShapes = []string{
 	`{ beings { ... on Pet { weight } } }`,
 	`{ beings { ... on Human { phone } } }`,
 	`{ humans { friend { name } pets { owner { phone } } } beings { ... on Pet { owner { phone } } } }`,
+	// one response key selected several times (fix 360a3f6; the first one formerly the listed finding
+	// C01-duplicate-response-key)
+	`{ me { name } me { phone } }`,
+	`{ me { id name } me { phone } }`,
+	`{ me { phone } me { id name friend { name } } me { friend { phone } } }`,
+	`{ me { pets { id } pets { weight } } }`,
+	`{ beings { ... on Human { name } } beings { ... on Human { phone } ... on Pet { weight } } }`,
+	`{ humans { name ... on Human { name phone } } }`,
 }
 
 func worldFor(seed int64, domain string) *gen.World {
